@@ -6,7 +6,7 @@ import runner_common as rc
 LEVEL = "proof"
 # every way of reaching the retry loop without a breaker (the projection does not contain classifier calls, which the sugar
 # entry points make once more for the absent breaker)
-OPTS = {"entries": ["retry", "retry", "retry", "retry.ctx", "retrypolicy", "retrypolicy.ctx", "decorator", "retrycfg", "retrypolicycfg"]}
+OPTS = {"entries": rc.ENTRIES_NO_BREAKER}
 
 
 def run(chk):
